@@ -14,7 +14,7 @@ RULE = ("Hypothesis draws an operation (binary +,-,* with all broadcasting align
         "roundoff oracle); the oracle is the same expression on the checker's own dense contraction. "
         "Non-trivial: both TT operands have some rank>1, or a broadcast happened, or (scalar/unary/full) the operand "
         "has a rank>1 and order>=2. Distinct = distinct structural signature (case with payload seeds removed).")
-BUDGET = {"quick": 16000, "thorough": 320000}
+BUDGET = {"quick": 16000, "thorough": 1200000}
 FLOORS = {"quick": {"broadcast": 300, "op:add": 300, "op:mul": 300, "exact": 3000, "singleton_mode_rank>1": 100}}
 ASSUMPTIONS = ["dense reference = checker's own matrix-product contraction of the cores in float64/complex128",
                "tensor scalars are generated with the dtype of the TT operand (mixed dtypes are outside the statement)",
